@@ -384,3 +384,53 @@ MANIFEST_TEXT["C19"] = {
     "text": "Bounded model checking of the rhp/v4 framing code only: real encodeTo/decodeFrom/maxLen/ReadRequest/ReadResponse/WriteResponse executed symbolically; length arithmetic at the protocol's batch limits, error-response delivery for all codes/descriptions within the bound, and the read bound on an arbitrary over-long stream.",
     "note": "Partial claim: transports (handshake, mux, AEAD) are outside reach. Trusted: engine; bytes.Buffer/bytes.Reader/io.LimitedReader run as real library code.",
 }
+
+PROPS["C18"] = {
+    "runs": [
+        {"pkg": "types", "harness": ["harness/c18/c18.go"], "run": "^VH_C18_", "params": {"quick": {"maxn": 7}, "thorough": {"maxn": 7}}, "flags": {"quick": ["-timeout", "5000"], "thorough": ["-timeout", "20000"]},
+         "must_reach": {"VH_C18_MultiproofLossless": ["end"]}, "tv_harnesses": ["VH_C18_MultiproofLossless"]},
+        {"pkg": "gateway", "harness": ["harness/c18/c18_outline.go"], "run": "^VH_C18_", "params": {"quick": {"cur_lift": 1, "int_mode": 1}, "thorough": {"cur_lift": 1, "int_mode": 1}}, "flags": {"quick": ["-timeout", "5000"], "thorough": ["-timeout", "20000"]},
+         "must_reach": {"VH_C18_Outline": ["end"]}},
+    ],
+    "tv_runs": {"quick": 2, "thorough": 4},
+    "bounds": {"quick": "multiproof: forests of 4..7 symbolic leaves (siacoin, siafund, v2 contract, chain index by position) built by an independent reference; a transaction set of one or two transactions using leaves 0,1,2 (+ storage proof index leaf 3) and leaf 4; encode -> decode restores every proof (compared with the reference paths) and the full hashes; outline: block of 2 symbolic v2 transactions, all 4 omitted subsets, completion from a reversed pool with an unrelated extra transaction", "thorough": "same"},
+    "outside": ["larger forests, more transactions, duplicate leaves, ephemeral parents, v1 transactions in outlines"],
+    "stubs": ["sort.Slice: insertion sort driven by the real less closure"], "assumptions": COMMON_ASSUME + IDEAL_CRYPTO,
+}
+MANIFEST_TEXT["C18"] = {
+    "text": "Bounded model checking under the ideal-hash model: the real multiproof encoder/decoder (computeMultiproof, expandMultiproof, leaf-hash copies in types/multiproof.go) run on transaction sets whose parents are genuine leaves of a reference forest; the decoded set must equal the original including every proof, which pins the leaf hashes in multiproof.go to the accumulator's definition. Outline/Complete/Missing of the gateway run on a symbolic two-transaction block for every omitted subset.",
+    "note": "Trusted: ideal hash, z3, engine. Small bounds (<= 7 leaves, <= 2 transactions).",
+}
+PROPS["C06"] = {
+    "runs": [
+        {"pkg": "consensus", "harness": ["harness/c06/c06.go", "harness/c04/c04.go", "harness/c05/c05.go", "harness/common/cons_support.go"], "run": "^VH_C06_",
+         "params": {"quick": {"weight_uf": 1, "tax_uf": 1, "int_mode": 1, "cur_lift": 1}, "thorough": {"weight_uf": 1, "tax_uf": 1, "int_mode": 1, "cur_lift": 1}}, "flags": {"quick": ["-timeout", "5000"], "thorough": ["-timeout", "20000"]},
+         "must_reach": {"VH_C06_RevertV2Revision": ["end"]}},
+        {"pkg": "consensus", "harness": ["harness/c05/c05.go"], "run": "^VH_C05_", "params": {"quick": {"maxn": 8, "maxk": 3, "maxu": 3}, "thorough": {"maxn": 16, "maxk": 6, "maxu": 3}},
+         "flags": {"quick": ["-maxloop", "100000000", "-maxsteps", "200000000000"], "thorough": ["-maxloop", "1000000000", "-maxsteps", "20000000000000"]}, "must_reach": {"VH_C05_ApplyRevert": ["end"]}},
+    ],
+    "tv_runs": {"quick": 0, "thorough": 0},
+    "bounds": {"quick": "RevertBlock of a block whose single v2 transaction revises a contract proven in a 4-leaf parent accumulator: the revert diffs carry the contract with its pre-block content; clients tracking the three other leaves (with their post-block proofs) end with the parent forest's paths; the accumulator-level apply/revert/re-apply equations of C05 (n <= 8, <= 3 updated, <= 3 added)", "thorough": "C05 part at n <= 16"},
+    "outside": ["full ApplyBlock/RevertBlock round trips with store model, other diff kinds (siacoin/siafund/v1 contracts), reorg depth > 1: not built in this session"],
+    "stubs": SEQ_CUTS, "assumptions": SEQ_ASSUME,
+}
+MANIFEST_TEXT["C06"] = {
+    "text": "Bounded model checking (partial): the real RevertBlock on a symbolic state and a block revising a v2 contract, with an independent naive forest as oracle for the proofs clients must end up with, plus the accumulator apply/revert/re-apply equations on symbolic leaf hashes.",
+    "note": "Partial claim: only the v2-revision diff kind at block level; other kinds only through the accumulator-level equations. Trusted: ideal hash, engine.",
+}
+PROPS["C09"] = {
+    "runs": [
+        {"pkg": "consensus", "harness": ["harness/c09/c09.go", "harness/common/cons_world.go", "harness/common/cons_support.go"], "run": "^VH_C09_",
+         "params": {"quick": {"weight_uf": 1, "tax_uf": 1, "spidx_uf": 1, "int_mode": 1, "cur_lift": 1}, "thorough": {"weight_uf": 1, "tax_uf": 1, "spidx_uf": 1, "int_mode": 1, "cur_lift": 1}},
+         "flags": {"quick": ["-timeout", "2000"], "thorough": ["-timeout", "20000"]},
+         "must_reach": {"VH_C09_NoSideEffects": ["applied", "rejected"], "VH_C09_DeepCopy": ["end"]}},
+    ],
+    "tv_runs": {"quick": 0, "thorough": 0},
+    "bounds": {"quick": "on every explored path of ValidateV2Transaction / ValidateTransactionElements / ApplyV2Transaction (shapes: input+output, revision, resolution of each kind) the engine observes every store: none targets memory reachable from the transaction or the state, none targets package-level variables (shared mutable state is what makes concurrent calls interfere); V2Transaction.DeepCopy: every byte string / hash / proof / renewal / policy slice reachable from the copy is overwritten and no store lands in the original", "thorough": "same"},
+    "outside": ["goroutine schedules and the race detector are not encoded: 'concurrency-safe' is claimed only as 'no writes to shared memory on any path' (sync.Pool is modelled as returning a fresh hasher)", "determinism across map iteration orders; block-level ValidateBlock/ApplyBlock; v1 transactions; Copy/Move/Share of single elements"],
+    "stubs": SEQ_CUTS, "assumptions": SEQ_ASSUME,
+}
+MANIFEST_TEXT["C09"] = {
+    "text": "Bounded symbolic execution with a write monitor: the engine's flat-cell memory knows which objects are reachable from the caller's arguments and which are package-level variables; every store executed on every explored path of validation/application is checked against both sets, and the aliasing of DeepCopy is decided by writing through the copy.",
+    "note": "Partial claim (no schedules; v2 transaction level). Trusted: engine memory model.",
+}
